@@ -239,6 +239,12 @@ def check_property(prop, tier="quick", seed=0, jobs=16):
     assumptions = list(meta.get("assumptions", []))
     scan_paths = [os.path.join(KANI_DIR, "src", f) for f in os.listdir(os.path.join(KANI_DIR, "src"))]
     scan_paths += [os.path.join(V.VERUS_DIR, f) for f in os.listdir(V.VERUS_DIR)]
+    assumptions += [
+        "kx::assume(..) in Kani harnesses are the contracts' preconditions (documented data-structure invariants, well-formed model entries, bounds of bounded stand-ins); each harness carries kani::cover! guards that must be SATISFIED, so a contradictory precondition is reported (exit 2), not passed",
+        "external_body in Verus templates: the ghost decoder model's quantile_function (the model contract of C03, proved for the library's models by the uniform/contiguous/lookup units and the Kani model harnesses) and the partition_point stubs (std's documented binary_search_by contract)",
+        "Verus verifies the extracted function text after the rule table (generics specialised to concrete integer types, NonZero erased with its obligations kept, error plumbing simplified); Kani verifies what rustc compiles",
+        "machine arithmetic is not treated as mathematical: Verus checks overflow on executable code, Kani is bit-precise; the lemma layer is over nat/int and connected by machine-checked bridging theorems",
+    ]
     assumptions += ["scan: " + s for s in scan_assumptions(scan_paths)]
     ev = dict(
         property_id=prop, tier=tier, seed=seed, level=level, wall_s=round(wall, 2),
